@@ -719,6 +719,14 @@ class IntervalTier(textgrid_tier.TextgridTier):
             # sourceInterval.start - lastFromEnd -> was this interval and the
             # last one adjacent?
             newStart = sourceInterval.start + cumulativeAdjustAmount
+            if len(newEntryList) > 0:
+                # Adjacent intervals stay adjacent and rounding must not
+                # make an interval start before the previous one ends
+                if sourceInterval.start == lastSourceEnd:
+                    newStart = newEntryList[-1].end
+                else:
+                    newStart = max(newStart, newEntryList[-1].end)
+            lastSourceEnd = sourceInterval.end
 
             currIntervalDuration = sourceInterval.end - sourceInterval.start
             if filterFunc is None or filterFunc(sourceInterval.label):
